@@ -261,6 +261,8 @@ class Program:
             self.relocated += reattach_static_aliases({m.name: m.tree for m in self.modules.values()})
             from .relocate import flatten_new_bases
             self.relocated += flatten_new_bases({m.name: m.tree for m in self.modules.values()})
+            from .relocate import restore_attribute_names
+            self.relocated += restore_attribute_names({m.name: m.tree for m in self.modules.values()})
             from .relocate import restore_constant_names
             self.relocated += restore_constant_names({m.name: m.tree for m in self.modules.values()})
             from .relocate import restore_function_names
